@@ -137,7 +137,9 @@ PROPS = {
         undecided=['exactness of scipy.linalg.expm', 'symmetry/PSD of the computed product in '
                    'floating point', 'composition over partitions (numerical)']),
     'C19': dict(
-        rules=[purity.pur_rules, purity.rng_src, purity.sch_rules, dtype.dtype_inherit, forms.form_agree],
+        rules=[purity.pur_rules, purity.rng_src, purity.rng_fwd, purity.sch_rules, dtype.dtype_inherit,
+               forms.form_agree,
+               forms.form_agree_tables],
         decided=['no public callable writes into an argument, a constructor-argument field or a '
                  'shared constant (may-alias effect analysis with interprocedural summaries; '
                  'pandas-3 copy-on-write model)',
@@ -158,7 +160,7 @@ PROPS = {
                    'first-order recovery of a perturbation (numerical)']),
     'C14': dict(
         rules=[sensor.sm_names, sensor.sm_count, sensor.sm_accum, sensor.sm_sign, sensor.sm_apply,
-               sensor.sm_gate, purity.rng_src],
+               sensor.sm_gate, purity.rng_src, purity.rng_fwd],
         decided=['the flag gating the reading-dependent part of the output matrix is true exactly '
                  'when some scale/misalignment state exists (decided by length of the index list)',
                  'state names produced by estimator and simulator and parsed by the estimator '
